@@ -453,7 +453,8 @@ def load(val: _T) -> PythonValueT | _T:
     Args:
         val: The value to decode.
     """
-    return strload(val) if inspection.istexttype(val.__class__) else val  # type: ignore[arg-type]
+    # Decode first: `strload` is memoized, and a `bytearray` (or a view of one) is not hashable.
+    return strload(decode(val)) if inspection.istexttype(val.__class__) else val  # type: ignore[arg-type]
 
 
 @compat.lru_cache(maxsize=100_000)
